@@ -2,6 +2,7 @@ package checks
 
 import (
 	"fmt"
+	"sync"
 	"testing"
 	"testing/synctest"
 	"time"
@@ -9,6 +10,7 @@ import (
 	"github.com/energomonitor/bisquitt/client"
 	p1 "github.com/energomonitor/bisquitt/packets1"
 
+	"verifharness/memnet"
 	"verifharness/rt"
 	"verifharness/snref"
 	"verifharness/world"
@@ -29,6 +31,10 @@ func (b gwBehaviour) String() string {
 		return fmt.Sprintf("answers datagram #%d with %s every second for ten minutes, then and otherwise silent", b.k, snref.TypeName(b.typ))
 	case "normal":
 		return "normal"
+	case "senderr":
+		return fmt.Sprintf("normal, but the client's datagram write #%d fails (send error)", b.k)
+	case "senderr-all":
+		return fmt.Sprintf("normal, but every datagram write of the client from #%d on fails (send error)", b.k)
 	}
 	return fmt.Sprintf("%s from datagram #%d", b.kind, b.k)
 }
@@ -40,7 +46,7 @@ func hostileHandler(sg *simpleGw, b gwBehaviour) func(g *world.GwPeer, p *snref.
 	return func(g *world.GwPeer, p *snref.Pkt, raw []byte) {
 		i := n
 		n++
-		if b.kind == "normal" || i < b.k {
+		if b.kind == "normal" || b.kind == "senderr" || b.kind == "senderr-all" || i < b.k {
 			normal(g, p, raw)
 			return
 		}
@@ -125,6 +131,9 @@ func TestC28(t *testing.T) {
 		behaviours = append(behaviours, gwBehaviour{kind: "silent", k: k}, gwBehaviour{kind: "disconnect", k: k})
 	}
 	behaviours = append(behaviours, gwBehaviour{kind: "garbage", k: 1}, gwBehaviour{kind: "garbage", k: 2})
+	for k := 0; k <= 4; k++ {
+		behaviours = append(behaviours, gwBehaviour{kind: "senderr", k: k}, gwBehaviour{kind: "senderr-all", k: k})
+	}
 	for _, ty := range []byte{snref.CONNACK, snref.REGISTER, snref.REGACK, snref.PUBLISH, snref.PUBACK, snref.PUBREC, snref.PUBREL, snref.PUBCOMP, snref.SUBACK, snref.UNSUBACK, snref.PINGRESP, snref.DISCONNECT, snref.WILLTOPICREQ, snref.WILLMSGREQ, snref.CONNECT, snref.PINGREQ, snref.ADVERTISE} {
 		behaviours = append(behaviours, gwBehaviour{kind: "reply-type", k: 1, typ: ty}, gwBehaviour{kind: "reply-type", k: 2, typ: ty})
 	}
@@ -155,7 +164,7 @@ func TestC28(t *testing.T) {
 	if !r.Thorough() {
 		var sub []cs
 		for i, c := range cases {
-			if i%2 == int(r.Seed%2) || c.b.kind == "silent" || c.b.kind == "repeat" {
+			if i%2 == int(r.Seed%2) || c.b.kind == "silent" || c.b.kind == "repeat" || c.b.kind == "senderr" {
 				sub = append(sub, c)
 			}
 		}
@@ -179,6 +188,23 @@ func TestC28(t *testing.T) {
 			tr := world.NewTrace()
 			sg := newSimpleGw()
 			g := world.NewGwPeer(tr, 0, hostileHandler(sg, cse.b))
+			if cse.b.kind == "senderr" || cse.b.kind == "senderr-all" {
+				var fmu sync.Mutex
+				nOut := 0
+				g.SetPlan(func(dir string, p *snref.Pkt, n int) memnet.Action {
+					if dir != world.SNIn {
+						return memnet.Pass
+					}
+					fmu.Lock()
+					defer fmu.Unlock()
+					i := nOut
+					nOut++
+					if i == cse.b.k || (i > cse.b.k && cse.b.kind == "senderr-all") {
+						return memnet.Fail
+					}
+					return memnet.Pass
+				})
+			}
 			cl := newClientOn(g.Link.A, cfg)
 			cl.Dial("mem")
 			a := newAPI(tr, 0)
@@ -235,5 +261,5 @@ func TestC28(t *testing.T) {
 			r.Sample(map[string]interface{}{"case": c.Desc, "trace_head": world.Strings(evs, 16)})
 		}
 	})
-	r.Finish("real client library (RetryCount 1, RetryDelay 2 s, ConnectTimeout 2 s; keep-alive off or 3 s with a ping in flight) against a scripted gateway in virtual time. Gateway behaviours: normal; silent from its k-th received datagram on (k=0..4); DISCONNECT on its k-th datagram (k=0..4); undecodable replies; from datagram 1 or 2 on answering everything with one fixed packet type (17 types incl. unsolicited acks, REGISTER, PUBLISH, CONNECT, ADVERTISE); answering the call's first datagram with one acknowledgement type repeated every second for ten minutes (9 types). Calls: Connect, then each of Register/Subscribe/Publish QoS 0-2/Unsubscribe/Ping/Sleep(5 s)/Disconnect, alone and (for normal, silent and disconnecting gateways) together with each second call, then Close. Oracle: every call has returned when virtual time has advanced by twice the bound (RetryCount+1) x max(ConnectTimeout, RetryDelay) + sleep duration + 60 s + 1 s; 3 s after Close returned the runtime's goroutine dump shows no goroutine of the bubble inside bisquitt code. Quick tier: every second case (all 'silent' cases).", nil)
+	r.Finish("real client library (RetryCount 1, RetryDelay 2 s, ConnectTimeout 2 s; keep-alive off or 3 s with a ping in flight) against a scripted gateway in virtual time. Gateway behaviours: normal; silent from its k-th received datagram on (k=0..4); DISCONNECT on its k-th datagram (k=0..4); undecodable replies; from datagram 1 or 2 on answering everything with one fixed packet type (17 types incl. unsolicited acks, REGISTER, PUBLISH, CONNECT, ADVERTISE); answering the call's first datagram with one acknowledgement type repeated every second for ten minutes (9 types); normal but the client's own k-th datagram write (or every write from the k-th on, k=0..4) returns a send error. Calls: Connect, then each of Register/Subscribe/Publish QoS 0-2/Unsubscribe/Ping/Sleep(5 s)/Disconnect, alone and (for normal, silent and disconnecting gateways) together with each second call, then Close. Oracle: every call has returned when virtual time has advanced by twice the bound (RetryCount+1) x max(ConnectTimeout, RetryDelay) + sleep duration + 60 s + 1 s; 3 s after Close returned the runtime's goroutine dump shows no goroutine of the bubble inside bisquitt code. Quick tier: every second case (all 'silent' cases).", nil)
 }
